@@ -3,7 +3,8 @@
    response directives, the request, the status and the validators.  TLC enumerates all directive subsets of
    size <= 3, checks that a predicted "stored" implies CacheStore!Storable, prints the classes. *)
 EXTENDS Naturals, FiniteSets, TLC, Json
-Dirs == {"nostore", "private", "privatef", "nocache", "nocachef", "public", "mustreval", "smaxage", "maxage"}
+\* proxyreval (proxy-revalidate) is NOT one of the directives that let a shared cache store the answer to an authenticated request (RFC 9111 3.5)
+Dirs == {"nostore", "private", "privatef", "nocache", "nocachef", "public", "mustreval", "smaxage", "maxage", "proxyreval"}
 VARIABLES par, pred
 vars == <<par, pred>>
 Init == /\ par \in [dirs : {d \in SUBSET Dirs : Cardinality(d) <= 3}, req : {"none", "nostore", "nocache"}, auth : BOOLEAN,
